@@ -86,10 +86,11 @@ def remove_tags(
     target_tags = target_tags or set()
 
     def _map_func(op: cirq.Operation, _) -> cirq.OP_TREE:
-        remaining_tags = set()
+        # A list, not a set: the order of the remaining tags is kept.
+        remaining_tags = []
         for tag in op.tags:
             if not remove_if(tag) and tag not in target_tags:
-                remaining_tags.add(tag)
+                remaining_tags.append(tag)
 
         return op.untagged.with_tags(*remaining_tags)
 
